@@ -47,20 +47,68 @@ def gen_expr(rng, names, depth):
     return str(rng.choice([0, 1, 7, -2, 2.5]))
 
 
+RUNTIME_DRAWS = ["Range(0, 1)", "Uniform(1, 2, 3)", "DiscreteRange(0, 300)", "k + Normal(0, 1)",
+                 "Options({Range(0,1): 1, 5: 2})", "BigInt()", "SRandStr()", "SRandBytes()", "RandBool()", "RandNone()",
+                 "RandVec()", "RandOri()", "TruncatedNormal(0, 1, -2, 2)", "Uniform(RandVec(), 3, SRandStr())",
+                 "DiscreteRange(-40000, 40000)", "Uniform(Range(0, 1), Range(2, 3))"]
+SHARED_DRAWS = ["Uniform(dd[1], 3)", "dd[1] + Range(0, 1)", "Uniform(dd[2], dd[1])", "dd[2] * DiscreteRange(1, 3)"]
+BUILTIN_DYN = [("position", "vec"), ("velocity", "vec"), ("angularVelocity", "vec"), ("yaw", "float"), ("pitch", "float"),
+               ("roll", "float"), ("speed", "float"), ("angularSpeed", "float")]
+CUSTOM_DYN = [("cnt", "int"), ("tag", "str"), ("flag", "bool"), ("vv", "vec"), ("oo", "ori")]
+TRIPLES = [(3, 4, 0), (0, 3, 4), (1, 2, 2), (2, 3, 6), (4, 4, 7), (1, 0, 0), (0, 0, 2), (0, 0, 0), (6, 8, 0), (2, 6, 9)]
+
+
+def gen_perturb(rng, nobj, steps, custom):
+    prop, ty = rng.choice(BUILTIN_DYN + (CUSTOM_DYN if custom else []))
+    if ty == "vec":
+        t = rng.choice(TRIPLES)
+        sg = [rng.choice([-1, 1]) for _ in range(3)]
+        dk = [a * b for a, b in zip(t, sg)]
+        norm = round(sum(x * x for x in dk) ** 0.5)
+        delta = [x / 1024.0 for x in dk]
+        tolk = rng.choice([0, norm, max(norm - 1, 0), norm + 1, 1, 2, 5, 20])
+        tol = tolk / 1024.0
+    elif ty == "float":
+        k = rng.choice([-1, 1]) * rng.choice([0, 1, 2, 3, 5, 8, 100])
+        delta = [k / 1024.0]
+        tol = rng.choice([0, abs(k), max(abs(k) - 1, 0), abs(k) + 1, 1, 4, 8]) / 1024.0
+    elif ty == "int":
+        k = rng.choice([-1, 1]) * rng.choice([0, 1, 2, 3, 7])
+        delta = [k]
+        tol = float(rng.choice([0, abs(k), max(abs(k) - 1, 0), abs(k) + 1, 0.5, 2.5]))
+    else:   # bool / str / ori: `!=`
+        delta = [rng.choice([0, 1])]
+        tol = float(rng.choice([0, 1, 2, 0.5]))
+    if rng.random() < 0.08:
+        tol = -tol - 1 / 1024.0
+    return dict(obj=rng.randrange(nobj), call=rng.randint(0, steps), prop=prop, ty=ty, delta=delta, tol=tol,
+                cont=rng.random() < 0.25, wr=rng.random() < 0.7)
+
+
 def gen_program(rng, idx, dynamic):
-    L = ["from verif_c18_helpers import BigInt, RandStr, RandBytes, RandBool, RandNone"]
+    L = ["from verif_c18_helpers import BigInt, RandStr, RandBytes, RandBool, RandNone, SRandStr, SRandBytes, RandVec, RandOri"]
     names = []
+    features = []
     for i in range(rng.randint(0, 4)):
         L.append(f"v{i} = {gen_expr(rng, names, 2)}")
         names.append(f"v{i}")
+    custom = dynamic and rng.random() < 0.35
+    shared = dynamic and rng.random() < 0.2
+    if custom:
+        features.append("custom-dynamic")
+        L += ["class Thing(Object):", "    cnt[dynamic]: 3", "    tag[dynamic]: 'a'", "    flag[dynamic]: True",
+              "    vv[dynamic]: Vector(1, 2, 3)", "    oo[dynamic]: Orientation.fromEuler(0.5, 0, 0)"]
+    if shared:
+        features.append("shared-dep")
+        L.append("dd = {1: Range(0, 1), 2: DiscreteRange(0, 5)}")
     if dynamic:
-        L += ["behavior Foo(k):",
-              "    while True:",
-              f"        take {rng.choice(['Range(0, 1)', 'Uniform(1, 2, 3)', 'DiscreteRange(0, 300)', 'k + Normal(0, 1)', 'Options({Range(0,1): 1, 5: 2})'])}",
-              f"        x = {rng.choice(['Uniform(1, 2)', 'Range(-1, 1)', 'DiscreteRange(-400, 400)'])}",
+        pool = RUNTIME_DRAWS + (SHARED_DRAWS * 3 if shared else [])
+        L += ["behavior Foo(k):", "    while True:"]
+        for _ in range(rng.randint(1, 3)):
+            L.append(f"        take {rng.choice(pool)}")
+        L += [f"        x = {rng.choice(['Uniform(1, 2)', 'Range(-1, 1)', 'DiscreteRange(-400, 400)'])}",
               "        if x > 0:",
-              "            take x, Range(2, 3)",
-              ]
+              f"            take x, {rng.choice(pool)}"]
     nobj = rng.randint(1, 3)
     for j in range(nobj):
         spec = [f"at ({gen_expr(rng, names, 1)} + {100 * j}, {gen_expr(rng, names, 1)})"]
@@ -69,24 +117,26 @@ def gen_program(rng, idx, dynamic):
         if rng.random() < 0.6:
             spec.append(f"with foo {gen_expr(rng, names, 2)}")
         if rng.random() < 0.4:
-            spec.append(f"with bar {rng.choice(['BigInt()', 'RandStr()', 'RandBytes()', 'RandBool()', 'RandNone()'])}")
+            spec.append(f"with bar {rng.choice(['BigInt()', 'RandStr()', 'RandBytes()', 'RandBool()', 'RandNone()', 'RandVec()', 'RandOri()'])}")
         if rng.random() < 0.3:
             spec.append("with baz (" + gen_expr(rng, names, 1) + ", [" + gen_expr(rng, names, 1) + ", 3])")
-        if dynamic and j == 0:
+        if dynamic and (j == 0 or rng.random() < 0.3):
             spec.append(f"with behavior Foo({gen_expr(rng, names, 1)})")
         spec.append("with allowCollisions True")
-        L.append(("ego = " if j == 0 else "") + "new Object " + ", ".join(spec))
+        L.append(("ego = " if j == 0 else "") + f"new {'Thing' if custom else 'Object'} " + ", ".join(spec))
     for i in range(rng.randint(0, 3)):
         L.append(f"param p{i} = {rng.choice(['BigInt()', 'RandStr()', 'RandBytes()', 'RandBool()', gen_expr(rng, names, 2), '(' + gen_expr(rng, names, 1) + ', BigInt())'])}")
     if names and rng.random() < 0.3:
         L.append(f"require {names[0]} > -1000")
     if rng.random() < 0.25 and nobj >= 1:
-        L.append("mutate ego")
+        L.append(rng.choice(["mutate ego", "mutate", "mutate ego by 3"]))
+        features.append("mutate")
     src = "\n".join(L) + "\n"
-    job = dict(name=f"prog{idx}", src=src, seed=rng.randint(0, 10 ** 6), mode2D=rng.random() < 0.3, dynamic=dynamic)
+    job = dict(name=f"prog{idx}", src=src, seed=rng.randint(0, 10 ** 6), mode2D=rng.random() < 0.3, dynamic=dynamic, features=features)
     if dynamic:
         job["steps"] = rng.randint(2, 8)
-        job["div_cases"] = [[rng.choice([-1, 1]) * rng.choice([0, 1, 2, 3, 5, 8, 100]), rng.choice([0, 1, 2, 4, 8])] for _ in range(6)]
+        job["wr"] = rng.random() < 0.85
+        job["perturbs"] = [gen_perturb(rng, nobj, job["steps"], custom) for _ in range(6)]
     return job
 
 
@@ -123,6 +173,195 @@ def val_tokens(v):
     return list(v)
 
 
+def byte_roles(d, line):
+    """Role of every body byte: 'index' (selector of a multiplexer) or 'payload:<type>'."""
+    if line.startswith("ERR") or not line.strip():
+        return []
+    idx_nodes = {n[1] for n in d["nodes"] if n[0] == "M"}
+    roles = []
+    for item in line.split(","):
+        i, l = item.split(":")
+        i, l = int(i), int(l)
+        roles += [("index" if i in idx_nodes else "payload:" + d["nodes"][i][1])] * l
+    return roles
+
+
+def sim_command(events, rec):
+    """The SIM command replaying one logged run through the extracted model; None if something in the
+    log is outside the model (unsupported value type / overridden codec)."""
+    steps, tables = [], []
+    for i in rec["log"]:
+        ev = events[i]
+        if ev.get("unsupported"):
+            return None
+        if ev["k"] == "D":
+            if "nodes" not in ev:
+                return None
+            steps.append("D " + " ".join(dag_tokens(dict(nodes=ev["nodes"]))) + " " + str(ev["root"]))
+            if not ev.get("replayed"):
+                t = [str(len(ev["pvals"]))]
+                for k, v in ev["pvals"].items():
+                    t += [str(k)] + val_tokens(v)
+                tables.append(" ".join(t))
+        else:
+            t = ["U", str(len(ev["props"]))]
+            for pr in ev["props"]:
+                t += [pr[1]] + val_tokens(pr[2:])
+            steps.append(" ".join(t))
+    return " ".join(["SIM", "1" if rec["wr"] else "0", "1" if rec["cont"] else "0", zstr(rec["tol"][0]), zstr(rec["tol"][1]),
+                     str(len(steps))] + steps + [str(len(tables))] + tables + [rec["replay"] or "-"])
+
+
+def exact_vals(pr):
+    """Exact rational components of a logged dynamic property value [prop, ty, tag, payload]."""
+    import struct
+    from fractions import Fraction
+    ty, tag = pr[1], pr[2]
+    if ty == "float":
+        return [Fraction(struct.unpack("<d", bytes.fromhex(pr[3]))[0])]
+    if ty == "vec":
+        return [Fraction(x) for x in struct.unpack("<ddd", bytes.fromhex(pr[3]))]
+    if ty in ("int", "bool"):
+        return [Fraction(int(pr[3]))]
+    return None
+
+
+def spec_diverged(e, a, tol):
+    """The property's reading of valuesHaveDiverged in exact arithmetic: differs by more than tol."""
+    from fractions import Fraction
+    ev, av = exact_vals(e), exact_vals(a)
+    if ev is None:
+        return e[2:] != a[2:]
+    d2 = sum((x - y) ** 2 for x, y in zip(av, ev))
+    if d2 == 0:
+        return False
+    return tol < 0 or d2 > tol * tol
+
+
+def spec_first_divergence(events, rec0, rec, tol):
+    """Walk the recording's and the replaying run's logs in parallel; True if some dynamic property of the replaying
+    run differs from the recorded one by more than tol while recorded data remains."""
+    u0 = [events[i] for i in rec0["log"] if events[i]["k"] == "U"]
+    u1 = [events[i] for i in rec["log"] if events[i]["k"] == "U"]
+    for x, y in zip(u0, u1):
+        for e, a in zip(x["props"], y["props"]):
+            if spec_diverged(e, a, tol):
+                return True
+    return False
+
+
+def check_replay(c, exe, job, r, rp):
+    from fractions import Fraction
+    c.hist("replays")
+    c.count(("replay", job["src"], job["seed"]), nontrivial=rp.get("ndraws", 0) > 0)
+    shared = "shared-dep" in job.get("features", [])
+    mutated = bool(r.get("mutated"))
+    base = dict(job=job, scene_has_mutated_objects=mutated, shared_unsampled_dependency=shared)
+    if not rp["equal"]:
+        c.violation("replay", "replayed simulation differs from the original", dict(base, outcome=rp["outcome"], diff=rp.get("diff")))
+    for key in ("api_rerecord_equal", "rerecord_equal", "replay_equal", "otherflag_equal", "gen2_equal", "extended_prefix_equal", "extended_gen2_equal"):
+        if key in rp:
+            c.hist("replay:" + key)
+            if not rp[key] and not mutated:
+                c.violation("replay", f"replay check failed: {key}", dict(base, which=key, detail={k: rp.get(k) for k in ("gen2_outcome", "extended_outcome")}))
+    events, runs = rp["events"], rp["runs"]
+    cmds, idx = [], []
+    for n, rec in enumerate(runs):
+        cmd = sim_command(events, rec)
+        if cmd is None:
+            c.hist("replay-model-skip:" + rec["kind"])
+        else:
+            cmds.append(cmd)
+            idx.append(n)
+    outs = common.run_driver(exe, cmds) if cmds else []
+    model = dict(zip(idx, outs))
+    rec0 = runs[0]
+    for n, rec in enumerate(runs):
+        kind, oc = rec["kind"], rec["outcome"]
+        c.count(n=1)
+        c.hist(f"replay-run:{kind}:{oc.split(':')[0]}")
+        info = dict(base, run={k: v for k, v in rec.items() if k not in ("log",)}, run_index=n)
+        # property oracles on the implementation
+        if oc.startswith("other") or oc == "rejected":
+            vk = "truncation" if kind == "trunc" else ("corruption" if kind == "corrupt" else "replay")
+            c.violation(vk, f"{kind} replay fails with something other than SerializationError/DivergenceError", dict(info, byte_role=replay_byte_role(events, rec0, rec.get("pos"))))
+            continue
+        if kind in ("record", "replay", "replay-otherflag", "gen2", "extended", "extended-gen2") and oc != "ok" and not mutated:
+            c.violation("replay", f"{kind} run did not complete: {oc}", info)
+        if kind == "trunc" and oc == "DivergenceError":
+            c.violation("truncation", "truncated replay reported as divergent", info)
+        if kind == "corrupt":
+            c.hist("replay-corrupt-role:" + replay_byte_role(events, rec0, rec["pos"]) + ":" + oc)
+        if kind == "perturb":
+            pt = rec["pt"]
+            spec = spec_first_divergence(events, rec0, rec, Fraction(pt["tol"]))
+            want = ("ok" if pt["cont"] else "DivergenceError") if spec else "ok"
+            c.count(("perturb", pt["prop"], str(pt["delta"]), pt["tol"]), nontrivial=True)
+            c.hist(f"divergence:{pt['ty']}:{'beyond' if spec else 'within'}")
+            if oc != want:
+                c.violation("divergence", "divergence beyond the tolerance not reported (or reported within it)", dict(info, spec_diverged=spec, expected_outcome=want))
+        # the extracted model on the same requests
+        if n in model:
+            m = model[n].split(" | ")
+            mo = m[0].split()[0]
+            want = {"ok": "OK", "SerializationError": "FAIL", "DivergenceError": "DIVERGED"}.get(oc)
+            c.cov["traces_validated_against_impl"] += 1
+            if mo != want:
+                c.violation("correspondence", "replay model and implementation end differently", dict(info, model=model[n][:300]))
+            elif oc == "ok" and m[2] != (rec.get("out") or "-"):
+                c.violation("correspondence", "replay model records different bytes than the implementation", dict(info, model_out=m[2][:2000]))
+    c.sample(dict(replay_program=job["src"], runs=len(runs), replay_bytes=len(rec0.get("out", "")) // 2, events=len(events)), limit=5)
+
+
+def replay_byte_role(events, rec0, pos):
+    """header / draw:<index|payload> / divergence-data, for a byte offset of the recorded replay."""
+    if pos is None:
+        return "-"
+    if pos < 6:
+        return "header"
+    off = 6
+    for i in rec0["log"]:
+        ev = events[i]
+        if ev["k"] == "D":
+            ln = 0
+            for k, v in ev["pvals"].items():
+                pass
+            # length of this draw's bytes is not logged; approximate by re-encoding the primitive values
+            ln = sum(val_len(v) for v in ev["pvals"].values()) if len(ev["nodes"]) == 1 else None
+            if ln is None:
+                return "draw"
+            if pos < off + ln:
+                return "draw:" + ev["nodes"][0][1]
+            off += ln
+        elif rec0["wr"]:
+            for pr in ev["props"]:
+                ln = val_len(pr[2:])
+                if pos < off + ln:
+                    return "divergence-data:" + pr[1]
+                off += ln
+    return "beyond"
+
+
+def val_len(v):
+    if v[0] == "I":
+        z = int(v[1])
+        if 0 <= z <= 252:
+            return 1
+        if -32768 <= z <= 32767:
+            return 3
+        if -2 ** 31 <= z < 2 ** 31:
+            return 5
+        return 2 + max(1, -(-(z.bit_length() + 1) // 8))
+    if v[0] == "B":
+        return 1
+    if v[0] == "X":
+        return len(v[1]) // 2
+    if v[0] == "S":
+        n = 0 if v[1] == "-" else len(v[1]) // 2
+        return n + val_len(["I", str(n)])
+    return 0
+
+
 def main():
     c = Check(PID, "proof")
     c.cov["rule"] = ("programs drawn from a seeded generator (random values of every codec type, nested/conditional "
@@ -148,6 +387,8 @@ def main():
         j.setdefault("npos", 50 if quick else 200)
         j.setdefault("alts", 5 if quick else 16)
         j.setdefault("max_cuts", 150 if quick else 600)
+        j.setdefault("replay_cuts", 25 if quick else 700)
+        j.setdefault("replay_corruptions", 12 if quick else 60)
     if c.replay:
         body = json.load(open(c.replay))
         jobs = [body["case"]["job"]] if "job" in body.get("case", {}) else jobs[:4]
@@ -254,7 +495,9 @@ def main():
         for pos, b, oc in r["corrupt"]:
             d2 = data[:2 * pos] + "%02x" % b + data[2 * pos + 2:]
             cmds.append((hdr_prefix + d2) if pos < 10 else (dec_prefix + (d2[20:] or "-")))
+        cmds.append("ROLES " + dec_prefix[4:] + (body or "-"))
         out = common.run_driver(exe, cmds)
+        roles = byte_roles(d, out.pop())
         if out[0] != "SOME " + (body or "-"):
             c.violation("correspondence", "model encodes the sample to different bytes", dict(job=job, impl=body, model=out[0]))
         want = " ; ".join(f"{k} {' '.join(val_tokens(v))}" for k, v in sorted(((int(k), v) for k, v in d["pvals"].items())))
@@ -283,6 +526,7 @@ def main():
         for (pos, b, oc), m in zip(r["corrupt"], out[o:]):
             c.count(n=1)
             c.hist("corrupt:" + oc.split(":")[0])
+            c.hist("corrupt-role:" + (roles[pos - 10] if pos >= 10 and pos - 10 < len(roles) else "header") + ":" + oc.split(":")[0])
             if oc.startswith("other"):
                 c.violation("corruption", "corrupted data fails with something other than SerializationError", dict(job=job, pos=pos, byte=b, outcome=oc, info=r.get("corrupt_info")))
             if m.startswith("ERR") and oc == "ok":
@@ -291,30 +535,7 @@ def main():
         # replay
         rp = r.get("replay")
         if rp and "skip" not in rp:
-            c.hist("replays")
-            c.count(("replay", job["src"], job["seed"]), nontrivial=rp.get("nbytes", 0) > 30)
-            if not rp["equal"]:
-                c.violation("replay", "replayed simulation differs from the original",
-                            dict(job=job, outcome=rp["outcome"], diff=rp.get("diff"), scene_has_mutated_objects=bool(r.get("mutated"))))
-            for key in ("rerecord_equal", "gen2_equal", "extended_prefix_equal", "extended_gen2_equal"):
-                if key in rp:
-                    c.hist("replay:" + key)
-                    if not rp[key] and not r.get("mutated"):
-                        c.violation("replay", f"second-generation replay check failed: {key}", dict(job=job, which=key, detail={k: rp.get(k) for k in ("gen2_outcome", "extended_outcome")}, scene_has_mutated_objects=bool(r.get("mutated"))))
-            divs = rp.get("div", [])
-            mo = common.run_driver(exe, [f"DIV 0 {dk} {tk}" for dk, tk, _ in divs]) if divs else []
-            for (dk, tk, got_), m in zip(divs, mo):
-                c.count(("div", dk, tk), nontrivial=True)
-                c.hist("divergence:" + ("neg" if dk < 0 else "pos" if dk > 0 else "zero"))
-                spec = abs(dk) > tk
-                if got_ is not spec:
-                    c.violation("divergence", "divergence beyond the tolerance not reported (or reported within it)", dict(job=job, delta_1024=dk, tol_1024=tk, impl=got_, spec=spec))
-                if (m == "1") != spec:
-                    c.violation("correspondence", "model divergence predicate disagrees with |a-e|>tol", dict(delta=dk, tol=tk, model=m))
-            for t in rp.get("trunc", []):
-                c.hist("replay-trunc:" + t[1].split(":")[0])
-                if t[1].startswith("other"):
-                    c.violation("truncation", "truncated replay fails with something other than SerializationError", dict(job=job, cut=t[0], outcome=t[1], info=t[2:] ))
+            check_replay(c, exe, job, r, rp)
         elif rp:
             c.hist("replay-skip")
     c.cov["programs"] = len(results) - skipped
